@@ -16,6 +16,7 @@ use serde_json::json;
 
 pub fn run_case(ctx: &Ctx, case: u64, ev: &mut Ev) {
     let mut rng = Rng::derive(ctx.seed, "C12", case);
+    rng.big = ctx.tier == crate::Tier::Thorough && rng.chance(0.2);
     if rng.chance(0.5) {
         run::<2>(case, &mut rng, ev);
     } else {
@@ -36,7 +37,7 @@ fn errname(e: &NodeError) -> &'static str {
 }
 
 fn run<const K: usize>(case: u64, rng: &mut Rng, ev: &mut Ev) {
-    let len = 5 + rng.below(56);
+    let len = if rng.big { 60 + rng.below(200) } else { 5 + rng.below(56) };
     let mut t = Tree::<u32, K>::new();
     let root = t.add_root(7);
     let mut m = Model::new(K, root, 7);
